@@ -240,6 +240,34 @@ sys.exit(1 if not (res.get(key) is not None and res[key] <= tol) else 0)
 '''
 
 
+REPLAY_CC = r'''
+import sys
+import numpy as np
+from EasyFEA.FEM import Operators
+N, d = %(N)d, %(d)d
+nodes, weights = getattr(Operators.NonLinear, "__clenshaw_curtis")(N)
+nodes, weights = np.array(nodes), np.array(weights)
+val = float((weights * nodes ** d).sum())
+print("Clenshaw-Curtis nPoints =", N, ": sum_k w_k x_k^%%d =" %% d, val, "expected", 1.0 / (d + 1))
+sys.exit(1 if abs(val - 1.0 / (d + 1)) > 1e-10 else 0)
+'''
+
+REPLAY_QUAD = r'''
+import sys, json
+from corr import C18_impl as I
+case = json.loads(%(case)r)
+n, bound = %(n)d, %(bound)r
+if n:
+    case["nPoints"] = [n]
+res = I.run_quad(case)
+print(json.dumps(res, indent=1)[:2000])
+bad = any(abs(w - 1.0) > 1e-12 for w in res["wsum"].values()) or (n and res["defect"][str(n)] > bound)
+print("weights sum", res["wsum"], "defect", res["defect"], "bound", bound)
+bound = float(bound)
+sys.exit(1 if bad else 0)
+'''
+
+
 # ----------------------------------------------------------------------------------------
 # generators
 # ----------------------------------------------------------------------------------------
@@ -364,6 +392,86 @@ def gen_surface_cases(ctx, n):
     return out
 
 
+def gen_simfd_cases(ctx, laws):
+    """short sequences of the public setters (scheme / stress option, both orders, scheme or step size
+    changed afterwards, option re-selected) followed by the finite-difference check of the assembled
+    Newton matrix of Construct_local_matrix_system with respect to u_{n+1}."""
+    rng = ctx.rng
+    quick = ctx.tier == "quick"
+
+    def algo(name=None):
+        name = name or rng.choice(["newmark", "hht", "midpoint", "hht_newmark"])
+        alpha = round(rng.uniform(0.05, 0.4), 2) if name == "hht" else round(rng.uniform(0.05, 0.33), 2)
+        return ["algo", name, rng.choice([0.02, 0.05, 0.1]), alpha]
+
+    def stress(kind):
+        if kind == "pointwise":
+            return ["stress", "pointwise", 3, None, True]
+        if kind == "gonzalez":
+            return ["stress", "gonzalez", 3, None, True]     # useConsistentTangent=False is documented as not consistent
+        if kind == "quadrature":
+            return ["stress", "quadrature", rng.choice([1, 2, 3, 4, 5, 6, 9]), None, True]
+        return ["stress", "quadrature", rng.choice([1, 3]), rng.choice([1e-3, 1e-6, 1e-9]), True]
+    cases = []
+    meshes = [dict(dim=2, n=[2, 1, 1], L=[2.0, 1.0, 1.0], elemType="QUAD4"), dict(dim=2, n=[2, 1, 1], L=[2.0, 1.0, 1.0], elemType="TRI3"),
+              dict(dim=3, n=[2, 1, 1], L=[2.0, 1.0, 1.0], elemType="HEXA8")]
+    reps = 1 if quick else 3
+    cid = 0
+    for rep in range(reps):
+        for kind in ("pointwise", "gonzalez", "quadrature", "adaptive"):
+            for pattern in ("scheme-then-stress", "stress-then-scheme", "scheme-changed-after-stress", "step-size-changed-after-stress", "stress-reselected"):
+                final = "midpoint" if kind == "gonzalez" else None
+                if pattern == "scheme-then-stress":
+                    ops = [algo(final), stress(kind)]
+                elif pattern == "stress-then-scheme":
+                    if kind == "gonzalez":
+                        continue            # the setter rejects gonzalez before midpoint is selected (documented)
+                    ops = [stress(kind), algo()]
+                elif pattern == "scheme-changed-after-stress":
+                    first = algo("midpoint")
+                    second = algo(final)
+                    if kind != "gonzalez":
+                        while second[1] == "midpoint":
+                            second = algo()
+                    ops = [first, stress(kind), second]
+                elif pattern == "step-size-changed-after-stress":
+                    a = algo(final)
+                    b = list(a)
+                    b[2] = a[2] / 2
+                    ops = [a, stress(kind), b]
+                else:
+                    a = algo(final)
+                    other = rng.choice([k for k in ("pointwise", "quadrature", "adaptive") if k != kind])
+                    ops = [a, stress(other), stress(kind)]
+                law = laws[cid % len(laws)]
+                m = meshes[cid % len(meshes)] if not quick else meshes[cid % 2]
+                c = dict(m, id="t%d" % cid, law=law, params=gen_params(rng, law), rho=round(rng.uniform(0.5, 2.0), 2),
+                         rand=[rng.gauss(0, 1) for _ in range(240)], amp=0.03, h=1e-6, elems=[rng.randrange(0, 8) for _ in range(2)],
+                         cols=[rng.randrange(0, 24) for _ in range(4)], ops=ops, pattern=pattern, kind=kind,
+                         eta=round(rng.uniform(0.1, 0.5), 2) if rng.random() < 0.3 else 0.0,
+                         T1=[1.0, 0.3, 0.0], T2=[-0.3, 1.0, 0.0])
+                cases.append(c)
+                cid += 1
+    return cases
+
+
+QUAD_NPOINTS = list(range(1, 10)) + [17, 33]
+
+
+def gen_quad_cases(ctx, laws):
+    rng = ctx.rng
+    out = []
+    I3 = [[1.0 if r == c else 0.0 for c in range(3)] for r in range(3)]
+    todo = [("SaintVenantKirchhoff", {"lmbda": round(rng.uniform(0.5, 2), 3), "mu": round(rng.uniform(0.5, 2), 3), "K": 0.0})]
+    todo += [(l, gen_params(rng, l)) for l in laws]
+    for i, (law, p) in enumerate(todo):
+        dim = 3 if i % 2 == 0 else 2
+        out.append({"id": "q%d" % i, "elemType": "HEXA8" if dim == 3 else "QUAD4", "A": I3, "G": gen_G(rng, "moderate", dim), "G0": gen_G(rng, "moderate", dim),
+                    "pert": [rng.uniform(-1, 1) for _ in range(81)], "amp": 0.01, "law": law, "params": p, "nPoints": QUAD_NPOINTS,
+                    "T1": [1.0, 0.3, 0.2], "T2": [-0.3, 1.0, 0.1], "quadratic": law == "SaintVenantKirchhoff" and p["K"] == 0.0})
+    return out
+
+
 def gen_drift_cases(ctx):
     rng = ctx.rng
     quick = ctx.tier == "quick"
@@ -375,6 +483,9 @@ def gen_drift_cases(ctx):
          "params": {"K1": 20.0, "K2": 8.0, "K": 30.0}, "absTol": 1e-9, "rho": 1.0, "dt": round(rng.uniform(0.02, 0.08), 3),
          "algo": "midpoint", "stress": "quadrature", "nPoints": 9, "v0": 0.8, "nStep": 20 if quick else 120},
     ]
+    out.append({"id": "d4", "dim": 2, "n": [5, 2, 1], "L": [5.0, 1.0, 1.0], "elemType": "QUAD4", "law": "SaintVenantKirchhoff",
+                "params": {"lmbda": 30.0, "mu": 20.0, "K": 0.0}, "absTol": 1e-9, "rho": 1.0, "dt": 0.05, "algo": "midpoint",
+                "stress": "quadrature", "nPoints": rng.choice([4, 6, 8]), "v0": 0.8, "nStep": 15 if quick else 100, "exact_rule": True})
     if not quick:
         out.append({"id": "d2", "dim": 3, "n": [4, 1, 1], "L": [4.0, 1.0, 1.0], "elemType": "HEXA8", "law": "SaintVenantKirchhoff",
                     "params": {"lmbda": 40.0, "mu": 30.0, "K": 0.0}, "absTol": 1e-9, "rho": 1.0, "dt": 0.04, "algo": "midpoint",
@@ -529,6 +640,28 @@ def confirm_2d(ctx, M, mism):
     return found
 
 
+def search_cc_defects(ctx):
+    """numerical search on the translated Clenshaw-Curtis rules: first (nPoints, degree) whose moment is wrong."""
+    found = []
+    for N in H.CC_ALL:
+        try:
+            xs, ws = H.read_clenshaw_curtis(ctx.repo, N)
+        except TranslateError:
+            continue
+        xv, wv = [H._num(t) for t in xs], [H._num(t) for t in ws]
+        for d in range(0, H.cc_degree(N) + 1):
+            val = sum(w * x ** d for w, x in zip(wv, xv))
+            if abs(val - 1.0 / (d + 1)) > 1e-10:
+                found.append(("clenshaw-curtis:n=%d" % N,
+                              "Clenshaw-Curtis rule with nPoints=%d: sum_k w_k x_k^%d = %.12g, the integral of x^%d over [0,1] is %.12g (the rule must be exact up to degree %d)"
+                              % (N, d, val, d, 1.0 / (d + 1), H.cc_degree(N)),
+                              {"replay_py": REPLAY_CC % dict(N=N, d=d), "nPoints": N, "degree": d, "model_value": val}))
+                break
+        if len(found) >= 6:
+            break
+    return found
+
+
 def search_inv_defects(M):
     found = []
     for key, rec in M["state"]["inv"].items():
@@ -590,6 +723,16 @@ def run(ctx):
         ctx.obligation("translate:discrete-gradient+midpoint", False, str(ex))
         ctx.violation("translate:energy", "the discrete-gradient stress / midpoint update is no longer the formula the theorems are about: %s" % ex,
                       {"construct": str(ex), "theorems": "gonzalez_discrete_gradient, midpoint_energy_partial"}, found_input=False)
+    cc_files = []
+    try:
+        cct = H.emit_cc(ctx.repo, ctx.tier)
+        for n, t in cct.items():
+            open(os.path.join(ctx.build, n), "w").write(t)
+        cc_files = sorted(n for n in cct if n != "Gen_CC_defs.v")
+        ctx.obligation("translate:clenshaw-curtis", True, "rules nPoints = 1..33 executed symbolically")
+    except (TranslateError, SyntaxError, OSError, RecursionError, IndexError, TypeError, KeyError, ZeroDivisionError) as ex:
+        ctx.obligation("translate:clenshaw-curtis", False, str(ex))
+        ctx.violation("translate:clenshaw-curtis", "__clenshaw_curtis is outside the translated grammar: %s" % ex, {"construct": str(ex)}, found_input=False)
     laws = list(M["laws"])
     ctx.obligation("translate", True, "%d laws (%s), %d invariant tables, skipped %s" % (len(laws), ", ".join(laws), len(M["state"]["inv"]), M["skipped"]))
     ctx.cov["laws"] = laws
@@ -613,10 +756,14 @@ def run(ctx):
         chains.append(["Gen_Gonzalez.v", "C18_gonzalez.v", "C18_energy.v"])
     if r0.ok:
         chains += [["Gen_Law_%s.v" % n] for n in laws] + [["C18_kinematics.v", "Gen_HyperRef.v"]]
-    with ThreadPoolExecutor(max_workers=4) as ex:
+    rcc = ctx.coq(["Gen_CC_defs.v"], timeout=300, count=False) if cc_files else None
+    if rcc is not None and rcc.ok:
+        chains += [[f] for f in cc_files]
+    with ThreadPoolExecutor(max_workers=min(8, os.cpu_count() or 2)) as ex:
         results = list(ex.map(lambda fs: ctx.coq(fs, timeout=900), chains))
-    proof_ok = r0.ok and all(r.ok for r in results)
-    failed = [r.failed_file for r in [r0] + results if not r.ok]
+    allres = [r0] + ([rcc] if rcc is not None else []) + results
+    proof_ok = all(r.ok for r in allres)
+    failed = [r.failed_file for r in allres if not r.ok]
     ctx.sample({"theorem": "NeoHookean_dWdI3_correct : forall K I1 I2 I3 I4 I6 I8, 0 < I3 -> is_derive (fun x => NeoHookean_W K I1 I2 x I4 I6 I8) I3 (NeoHookean_S3 K I1 I2 I3 I4 I6 I8)",
                 "proof": "auto_derive, I3 = t^6, Rpower (t^6) (n/6) = t^n, field"})
     ctx.sample({"theorem": "invariant_derivs : forall it, In it all_invs -> d1_spec it /\\ d2_spec it",
@@ -625,11 +772,15 @@ def run(ctx):
     if not proof_ok:
         ctx.log("proof obligations broke (%s); searching a failing state" % failed)
         found = search_inv_defects(M) + search_law_defects(ctx, M, model)
+        if any(str(f).startswith("Gen_CC") for f in failed):
+            found += search_cc_defects(ctx)
         for key, what, rep in found:
             ctx.violation(key, what, rep, True)
-        if not found:
-            for f in failed:
-                bad = [r for r in [r0] + results if r.failed_file == f][0]
+        explained = {"Gen_CC": any(k.startswith("clenshaw") for k, _, _ in found),
+                     "other": any(not k.startswith("clenshaw") for k, _, _ in found)}
+        if True:
+            for f in [f for f in failed if not explained["Gen_CC" if str(f).startswith("Gen_CC") else "other"]]:
+                bad = [r for r in allres if r.failed_file == f][0]
                 ctx.violation("proof-broken:" + str(f), "theorem file %s no longer checks and no failing state was found" % f,
                               {"obligation": f, "log": bad.log[-3000:]}, found_input=False)
     # ---- 3. correspondence --------------------------------------------------------------
@@ -639,7 +790,9 @@ def run(ctx):
     fcases = gen_fd_cases(ctx, laws, 6 if quick else 24)
     pcases = gen_surface_cases(ctx, 3 if quick else 9)
     dcases = gen_drift_cases(ctx)
-    req = {"states": scases, "fd": fcases, "surface": pcases, "drift": dcases}
+    tcases = gen_simfd_cases(ctx, laws)
+    qcases = gen_quad_cases(ctx, laws)
+    req = {"states": scases, "fd": fcases, "surface": pcases, "drift": dcases, "simfd": tcases, "quad": qcases}
     rc, out, err = ctx.impl_python(os.path.join(common.VERIF, "corr", "C18_impl.py"), input=json.dumps(req), timeout=1500)
     if rc != 0:
         ctx.obligation("corr:impl", False, err[-1500:])
@@ -693,6 +846,67 @@ def run(ctx):
     ctx.obligation("corr:operators-vs-central-differences(sampled)", True, "%d tangent/residual comparisons" % nfd, n=1)
     ctx.cov["operator_fd_comparisons"] = nfd
     ctx.cov["operator_fd_worst_defect"] = worst
+    # assembled Newton matrix of the simulation after setter sequences (sampled)
+    nsim, worst_sim, rejected = 0, 0.0, {}
+    for c, r in zip(tcases, impl["simfd"]):
+        tag = "%s/%s" % (c["kind"], c["pattern"])
+        if "error" in r:
+            ctx.obligation("simfd:%s" % c["id"], False, r["error"])
+            ctx.violation("assembly-raises:%s" % tag, "Construct_local_matrix_system raised after the setter sequence %s: %s" % (c["ops"], r["error"]),
+                          {"replay_py": REPLAY_CASE % dict(case=json.dumps(c), fn="run_simfd", key="__none__", tol=0), "trace": r.get("trace")}, True)
+            continue
+        if "rejected" in r:
+            rejected[tag] = r["rejected"]
+            legit = c["kind"] == "gonzalez" or any(op[0] == "stress" and op[1] == "gonzalez" for op in c["ops"])
+            ctx.obligation("simfd:%s" % c["id"], legit, "rejected: " + r["rejected"])
+            if not legit:
+                ctx.violation("setter-rejects:%s" % tag, "a valid setter sequence %s is rejected: %s" % (c["ops"], r["rejected"]),
+                              {"replay_py": REPLAY_CASE % dict(case=json.dumps(c), fn="run_simfd", key="__none__", tol=0)}, True)
+            continue
+        val = r["sim:A=-dF/du_np1"]
+        nsim += 1
+        worst_sim = max(worst_sim, val)
+        ctx.note_case("simfd:%s:%s:%s" % (tag, r["algo"], c["elemType"]))
+        if r["columns"] == 0:
+            continue
+        if not val <= FD_TOL:
+            ctx.obligation("simfd:%s" % c["id"], False, "defect %.3g" % val)
+            ctx.violation("assembled-tangent:%s" % tag,
+                          "coefK K_e + coefC C_e + coefM M_e of Construct_local_matrix_system is not the derivative of the assembled residual w.r.t. u_{n+1} "
+                          "after the setter sequence %s (final scheme %s, stress %s, %s %s): relative defect %.3g (central differences h=%g, tolerance %.1g)"
+                          % (c["ops"], r["algo"], r["stress"], c["elemType"], c["law"], val, c["h"], FD_TOL),
+                          {"replay_py": REPLAY_CASE % dict(case=json.dumps(c), fn="run_simfd", key="sim:A=-dF/du_np1", tol=FD_TOL), "defect": val, "ops": c["ops"]}, True)
+    ctx.obligation("corr:assembled-newton-matrix-vs-central-differences(sampled)", True, "%d setter sequences" % nsim, n=1)
+    ctx.cov["simfd_sequences"] = nsim
+    ctx.cov["simfd_worst_defect"] = worst_sim
+    ctx.cov["simfd_rejected_sequences"] = rejected
+    # strain-path quadrature: discrete-gradient identity per number of points (sampled)
+    qworst = {}
+    for c, r in zip(qcases, impl["quad"]):
+        if "error" in r:
+            ctx.obligation("quad:%s" % c["id"], False, r["error"])
+            ctx.violation("quadrature-raises:%s" % c["law"], "TimeQuadratureStressTensor raised: %s" % r["error"],
+                          {"replay_py": REPLAY_QUAD % dict(case=json.dumps(c), n=0, bound=0.0), "trace": r.get("trace")}, True)
+            continue
+        prev = None
+        for npts in c["nPoints"]:
+            d = r["defect"][str(npts)]
+            ws = r["wsum"][str(npts)]
+            qworst[npts] = max(qworst.get(npts, 0.0), d)
+            # a rule with more points must not be worse than three times the previous one (spectral convergence of a smooth
+            # integrand; trapezoid vs midpoint is the factor 2); an energy quadratic in E is integrated exactly by every rule
+            bound = 1e-10 if c["quadratic"] else (float("inf") if prev is None else 3.0 * max(prev, 1e-11))
+            ok = d <= bound and abs(ws - 1.0) <= 1e-12
+            ctx.note_case("quad:%s:%d" % (c["law"], npts))
+            if not ok:
+                ctx.obligation("quad:%s:n=%d" % (c["id"], npts), False, "defect %.3g bound %.3g, weights sum %.15g" % (d, bound, ws))
+                ctx.violation("quadrature-discrete-gradient:n=%d:%s" % (npts, "even" if npts % 2 == 0 else "odd"),
+                              "quadrature stress with nPoints=%d (%s, %s): R.du differs from W1-W0 by %.3g relative (bound %.3g; previous rule %s), Clenshaw-Curtis weights sum to %.12g"
+                              % (npts, c["law"], c["elemType"], d, bound, prev, ws),
+                              {"replay_py": REPLAY_QUAD % dict(case=json.dumps(c), n=npts, bound=bound), "defect": d, "weights_sum": ws}, True)
+            prev = d
+    ctx.obligation("corr:quadrature-discrete-gradient(sampled)", True, "nPoints %s, %d laws" % (QUAD_NPOINTS, len(qcases)), n=1)
+    ctx.cov["quadrature_defect_by_nPoints"] = qworst
     # energy drift (sampled)
     drifts = {}
     for c, r in zip(dcases, impl["drift"]):
@@ -703,13 +917,13 @@ def run(ctx):
             continue
         E = r["energies"]
         d = max(abs(x - E[0]) for x in E) / abs(E[0])
-        drifts[c["id"] + ":" + c["law"] + ":" + c["stress"]] = d
-        tol = DRIFT_TOL if c["stress"] == "gonzalez" else 1e-6      # quadrature: conservation up to the 9-point rule's error
+        drifts[c["id"] + ":" + c["law"] + ":" + c["stress"] + (":n=%d" % c["nPoints"] if c["stress"] == "quadrature" else "")] = d
+        tol = DRIFT_TOL if c["stress"] == "gonzalez" or c.get("exact_rule") else 1e-6      # quadrature: conservation up to the rule's error (exact for an energy quadratic in E)
         ctx.note_case("drift:%s:%s:%s" % (c["law"], c["stress"], c["elemType"]), traces=len(E))
         nontrivial = r["umax"] > 0.05 * c["L"][1]
         ctx.obligation("drift:%s" % c["id"], d <= tol and nontrivial, "relative drift %.3g over %d steps (umax %.3g)" % (d, len(E) - 1, r["umax"]))
         if d > tol:
-            ctx.violation("energy-drift:%s:%s" % (c["stress"], c["law"]),
+            ctx.violation("energy-drift:%s%s:%s" % (c["stress"], ":even-nPoints" if c.get("exact_rule") else "", c["law"]),
                           "kinetic + stored energy drifts by %.3g (relative) over %d midpoint steps with the %s stress, %s, dt=%g (tolerance %.1g)"
                           % (d, len(E) - 1, c["stress"], c["law"], c["dt"], tol),
                           {"replay_py": REPLAY_CASE % dict(case=json.dumps(c), fn="run_drift", key="drift", tol=tol), "energies": E[:10]}, True)
